@@ -352,7 +352,7 @@ def main():
                 "(both sides of each equation, each as a stream with the position and payload of its first error); "
                 "distinct = (obligation family, instance text, input type); non-trivial = the instantiated stream has outputs",
         "samples": samples.items, "evaluations_by_family": by, "nontrivial": nontrivial,
-        "obligations": ["E01 limit,skip reproduce f", "E02 limit prefix / skip rest", "E03 first / first,last,nth shorthands",
+        "obligation_names": ["E01 limit,skip reproduce f", "E02 limit prefix / skip rest", "E03 first / first,last,nth shorthands",
                         "E04 last", "E05 nth", "E06 isempty", "E07 any/all (0,1,2 args)", "E08 add", "E09 range/1,2,3 vs while",
                         "E10 repeat", "E11 recurse/0,1,2 and ..", "E12 while/until", "E13 select", "E14 empty/error",
                         "E15 reduce expansion", "E16 foreach expansion", "E17 error position in every combinator"],
